@@ -9,31 +9,41 @@ claimed={
  'C03':("FMA = exact x*y+u rounded once, validated on recorded executions against the TLA+ operator OpFMA (one rounding of the exact sum; IEEE special values and zero-sum sign rule); the trace spec classifies each case as same-as / differs-from Mul-then-Add so the characterisation in the statement is exercised both ways.","4 C03"),
  'C04':("complete enumeration of operation x operand classes x modes executed on the real library and validated against the specification's IEEE dispatch; the outcome (ok / ErrNaN / other panic) of every event of every driver is an observed field.","4 C04"),
  'C05':("Sqrt validated against the integer-square-root specification and, independently, the squaring-only declarative predicate SqrtOK evaluated by TLC on the observed root.","4 C05"),
- 'C06':("dec.mul / dec.sqr / dec.div are driven through the verif hooks at all sizes and 8 threshold assignments with dirty and poisoned buffers; TLC validates every call against the natural-number identities (exact arithmetic) and classifies it by code path; Mul/Quo through the API on the same sizes are validated against the rounding specification.","4 C06"),
+ 'C06':("dec.mul / dec.sqr / dec.div are driven through the verif hooks at all sizes and 8 threshold assignments with dirty and poisoned buffers; TLC validates every call against the natural-number identities (exact arithmetic) and classifies it by code path; Mul/Quo through the API on the same sizes are validated against the rounding specification. At design level DecAlgo transcribes schoolbook/Karatsuba multiplication, squaring, Knuth D and recursive division statement by statement and TLC checks them exhaustively for every operand of bounded length in small bases (MC_Algo, MC_AlgoMul; the models of defects D1 and D25 must fail).","4 C06 and 8.1"),
  'C07':("every kernel call of a structured enumeration runs the build's implementation (assembly on amd64) and the portable Go one; TLC checks both against the mathematical post-condition over the pre-state (KernelPost/ScalarPost), hence against each other; whole-library programs run under three build configurations and the event logs must be identical.","4 C07"),
  'C08':("the state invariant Canonical is evaluated by TLC on every register named by every event of long recorded histories.","4 C08"),
  'C09':("precision/mode stickiness and operand immutability are evaluated by TLC on every event: receiver attributes against the documented value, operands against the model state, unnamed registers by digest.","4 C09"),
  'C10':("refinement of a buffer-free specification: every operation instance is executed under all aliasing partitions and receiver histories; all variants are validated against the specification, and variants of one instance are compared with each other by the trace specification.","4 C10"),
  'C11':("Text(-1)/MarshalText/JSON output is validated against the layout specification (all MinPrec digits, none invented) and the string is parsed back by the real code into a receiver of sufficient precision; TLC checks the re-read value and sign against x.","4 C11"),
- 'C12':("the literal grammar is a TLA+ recogniser over characters; every Parse-family call on structured, mutated and random strings is validated against it (accept/reject, detected base, value: exact-then-rounded for decimal literals, exact-or-1ulp with a binary exponent), and math/big's Float.Parse is validated on the same strings as a second implementation of the same recogniser.","4 C12"),
+ 'C12':("the literal grammar is a TLA+ recogniser over characters; every Parse-family call on structured, mutated and random strings is validated against it (accept/reject, detected base, value: exact-then-rounded for decimal literals, exact-or-1ulp with a binary exponent), and math/big's Float.Parse is validated on the same strings as a second implementation of the same recogniser; every string of up to 3 characters over the grammar's alphabet is run through the real parser (small-scope exhaustive), and MC_Parse proves the recogniser equal to the documented EBNF (written declaratively) on every string of up to 5 (6) characters.","4 C12 and 8.1"),
  'C13':("Text/Append/Format output is compared by TLC with the specification's strconv/fmt layout applied to the correctly rounded digits (rounding position at/above the leading digit included); strconv.FormatFloat and fmt.Sprintf on the float64 of the same value are validated against the same specification as a second implementation.","4 C13"),
  'C14':("Int/Int64/Uint64/Rat/IsInt/MinPrec and SetInt/SetInt64/SetUint64/SetRat/NewDecimal of recorded executions are validated against exact truncation / saturation / single rounding in the specification.","4 C14"),
  'C15':("SetFloat64/SetFloat (exact when representable, else within 1 / 64 ulp) and Float64/Float32 (declarative nearest-even predicate NearestOK by cross-multiplication, accuracy = sign(returned - x)) validated on adversarial bit patterns, midpoints and double-rounding triggers constructed from the specification side.","4 C15"),
  'C17':("GobEncode is validated against the specification's decoder, GobDecode against WellFormedGob/DecodeGob on valid, corrupted, truncated and hand-made payloads; decoded receivers are used afterwards.","4 C17"),
- 'C18':("DecPool.tla models the scratch pool protocol and TLC checks every interleaving of 2-3 goroutines' get/use/put micro-steps (and that the early-put defect is caught); goroutine executions of the real code are validated event by event against the sequential specification, the logged pool events against DecPool's Get/Put, scratch buffers are poisoned on get and put, and a -race pure-Go build runs the same programs.","4 C18"),
+ 'C18':("DecPool.tla models the scratch pool protocol and TLC checks every interleaving of 2-3 goroutines' get/use/put micro-steps (and that the early-put defect is caught); goroutine executions of the real code are validated event by event against the sequential specification, the logged pool events against DecPool's Get/Put, scratch buffers are poisoned on get and put, and a -race pure-Go build runs the same programs. The pool protocol without bounds (DecPoolAbs) has its safety invariant proved inductive by TLAPS for any number of goroutines and buffers; MC_Pool checks that DecPool refines it.","4 C18 and 8.1"),
  'C19':("the Context latch is a hidden variable of the trace specification inferred by TLC from recorded sessions; results are validated against apply-then-operate semantics with the context's precision and mode.","4 C19"),
  'C16':("Cmp/Sign/Signbit/IsZero/IsInf of recorded executions are compared by TLC with the sign of the exact difference computed by the specification, on adversarial pairs/triples in all ordered pairs.","4 C16"),
  'C20':("SetBitsExp/BitsExp/MantExp/SetMantExp validated against TLA+ operators with exact (BigInt) exponent arithmetic over all int64 exponents.","4 C20"),
 }
 import os
 extra=os.environ.get('VERIF_EXTRA_CLAIMED')
+word32={"C01","C02","C03","C04","C05","C09","C10","C11","C12","C13","C14","C15","C16","C19"}
+def technique(pid):
+    t="explicit TLA+ specification; TLC bounded model checking of spec vs declarative property; TLC trace validation of executions recorded from the real code (adopt-and-continue), mismatches reproduced before being reported"
+    if pid in word32:
+        t+="; the same programs executed by a GOARCH=386 build (32-bit words) must give the same abstract event log"
+    if pid=="C18":
+        t+="; TLAPS proof of the unbounded pool invariant; Go race detector on the same programs"
+    if pid=="C07":
+        t+="; differential execution of assembly and portable Go kernels and of three build configurations"
+    return t
 def chk(pid):
     text,ref=claimed[pid]
     return {"property_id":pid,"quick_cmd":"bin/vcheck %s --tier quick"%pid,"thorough_cmd":"bin/vcheck %s --tier thorough"%pid,
       "evidence_file":"/verif/evidence/%s.json"%pid,"replay_cmd_template":"bin/vcheck replay {path}","engine":"vcheck",
       "level_claimed":{"category":"model_checking","text":text,"design_ref":"DESIGN.md section "+ref},
       "level_note":"trusted: TLC, the BigInteger module overrides of BigNat (checked against their pure TLA+ definitions by MC_BigNat), the observation function (public accessors only), the executor, the Go toolchain. Bounded: operand sizes, precisions < 2^31, exponent gaps, number of events per run; TLC's exhaustiveness is over the bounded models, the real code is covered on the explored executions.",
-      "technique":"explicit TLA+ specification; TLC bounded model checking of spec vs declarative property; TLC trace validation of executions recorded from the real code (adopt-and-continue), mismatches reproduced before being reported"}
+      "technique":technique(pid)}
 hooks=subprocess.run("git -C /repo log --format=%h --grep='^verif hooks' ",shell=True,capture_output=True,text=True).stdout.split()
 m={"version":1,"setup_cmd":"sh scripts/setup.sh",
  "hooks":{"guard":"verif","enable":"go build -tags verif (vcheck builds harness/cmd/vexec against /repo with -tags verif)","baseline_off_cmd":"cd /repo && go test -vet=off -count=1 ./...","source_commits":hooks,"add_only":True},
